@@ -154,6 +154,10 @@ func addDeclared(r *rand.Rand, g *genRecord, o ropts) {
 		}
 		g.fields = append(g.fields, [2]string{"WARC-Block-Digest", d})
 	}
+	// a declared payload digest: correct, or in a spelling the library does not support
+	if r.Intn(10) == 0 {
+		g.fields = append(g.fields, [2]string{"WARC-Payload-Digest", pick(r, []string{"crc32:deadbeef", "sha3:00", "nocolon", "md5:", refDigest("sha1", 1, g.body)})})
+	}
 }
 
 func swapCase(s string) string {
@@ -276,9 +280,10 @@ func runBuild(toks []string) (string, string) {
 			// under spec-ignore nothing repairs the length after a missing HTTP terminator was added
 		}
 		if h.Get("Content-Length") != want {
-			if o.fixWF == 1 && o.spec == 0 && blockKind(rec.Block()) == "w" {
+			if o.fixWF == 1 && (o.spec == 0 || o.fixCL == 0) && blockKind(rec.Block()) == "w" {
 				// recorded known finding: the repaired warc-fields block changed size and nothing
-				// corrects the length under the ignore policy
+				// corrects the length (ignore policy, or warn with the Content-Length repair off: the
+				// mismatch is then reported as a finding but the stale value stays)
 				return obs, fmt.Sprintf("FAIL:stale-length-after-wfblock-repair:Content-Length %q but %d block bytes are serialized", h.Get("Content-Length"), len(blk))
 			}
 			return obs, fmt.Sprintf("FAIL:untruthful-length:Content-Length %q but %d block bytes are serialized", h.Get("Content-Length"), len(blk))
